@@ -201,6 +201,7 @@ func cmdRun(args []string) int {
 	pkgsFlag := fs.String("packages", "", "comma separated package patterns")
 	workers := fs.Int("workers", runtime.NumCPU(), "workers")
 	maxPaths := fs.Int("max-paths", 0, "path limit")
+	budget := fs.Int("budget", 0, "time budget in seconds (overrides the property spec)")
 	verbose := fs.Bool("v", false, "verbose")
 	noEvidence := fs.Bool("no-evidence", false, "do not write evidence")
 	solvers := fs.String("solvers", "", "solver order (default: property spec, else cvc5,z3-new)")
@@ -256,6 +257,9 @@ func cmdRun(args []string) int {
 	}
 	if *maxPaths > 0 {
 		cfg.MaxPaths = *maxPaths
+	}
+	if *budget > 0 {
+		cfg.Budget = time.Duration(*budget) * time.Second
 	}
 	if cfg.SolverMs == 0 {
 		cfg.SolverMs = 10000
